@@ -141,6 +141,15 @@ def hop_lists(menu_fn, tier):
                 lst = list(plain)
                 lst[pos] = odd
                 out.append(lst)
+        if tier == "thorough" and 2 <= L <= 4:
+            # two odd elements
+            for p1 in range(L):
+                for p2 in range(p1 + 1, L):
+                    for o1 in menu_fn(p1 + 1)[1:]:
+                        for o2 in menu_fn(p2 + 1)[1:]:
+                            lst = list(plain)
+                            lst[p1], lst[p2] = o1, o2
+                            out.append(lst)
     return out
 
 
